@@ -245,13 +245,13 @@ def evaluate__instance_expression(self: XPathToken, context: ta.ContextType = No
         if context is None:
             raise self.missing_context()
 
-        for position, context.item in enumerate(self[0].select(context)):
-            if context.axis is None:
-                context.axis = 'self'
-
-            item = context.item
-            result = self[1].evaluate(context)
-            context.item = item
+        # The test is applied to each item on a context of its own: the operand can
+        # be still under (lazy) evaluation on the context of the expression.
+        item_context = copy(context)
+        for position, item in enumerate(self[0].select(context)):
+            item_context.item = item
+            item_context.axis = 'self'
+            result = self[1].evaluate(item_context)
             if isinstance(result, list) and all(x is not item for x in result):
                 # An item that does not match the test, whatever the occurrence indicator
                 # (a kind test can select other nodes, e.g. the attributes of an element)
